@@ -192,7 +192,10 @@ theorem startLookup_invS {s : St} {outs : List Out} (h : InvS s outs) {i : Nat} 
   unfold startLookup
   split
   · next hp => exact enqueue_invS h hi hw hp
-  · next hp => exact submitLookup_invS h hi hw hp
+  · next hp =>
+    split
+    · exact h
+    · exact submitLookup_invS h hi hw hp
 
 /-- `startLookup` keeps record i's user name and password (the waiters of i stay its own) -/
 theorem startLookup_keeps (s : St) (i : Nat) (r : Req) (j : Nat) :
@@ -202,9 +205,11 @@ theorem startLookup_keeps (s : St) (i : Nat) (r : Req) (j : Nat) :
   · simp only [setRec_recs]; split
     · next e => subst e; exact ⟨rfl, rfl⟩
     · exact ⟨rfl, rfl⟩
-  · simp only [setRec_recs]; split
-    · next e => subst e; exact ⟨rfl, rfl⟩
+  · split
     · exact ⟨rfl, rfl⟩
+    · simp only [setRec_recs]; split
+      · next e => subst e; exact ⟨rfl, rfl⟩
+      · exact ⟨rfl, rfl⟩
 
 theorem tryAuth_keeps (cfg : Cfg) (s : St) (i : Nat) (r : Req) (j : Nat) :
     ((tryAuth cfg s i r).1.recs j).user = (s.recs j).user ∧ ((tryAuth cfg s i r).1.recs j).passwd = (s.recs j).passwd := by
@@ -280,7 +285,9 @@ theorem startLookup_fwdOk (cfg : Cfg) (acc : List Out) (s : St) (i : Nat) (r : R
   unfold startLookup
   split
   · exact fwdOk_cons_other cfg acc _ [] (by intro _ _ _ h; cases h) (fwdOk_nil _ _)
-  · exact fwdOk_cons_other cfg acc _ [] (by intro _ _ _ h; cases h) (fwdOk_nil _ _)
+  · split
+    · exact fwdOk_cons_other cfg acc _ [] (by intro _ _ _ h; cases h) (fwdOk_nil _ _)
+    · exact fwdOk_cons_other cfg acc _ [] (by intro _ _ _ h; cases h) (fwdOk_nil _ _)
 
 theorem tryAuth_fwdOk (cfg : Cfg) {s : St} {acc : List Out} (h : InvS s acc) {i : Nat} (hi : i < s.nrec) {r : Req}
     (hw : OwnOf (s.recs i) r) : FwdOk cfg acc (tryAuth cfg s i r).2 := by
